@@ -29,7 +29,7 @@ import (
 	. "vh/vhlib"
 )
 
-const c12Header = "From MV Require Import Gen.ListenerTokens Model.ListenerUpdate.\nFrom Coq Require Import List.\nImport ListNotations.\n"
+var c12Header = inlineGen(genListenerTokens) + "From MV Require Import Model.ListenerUpdate.\nFrom Coq Require Import List.\nImport ListNotations.\n"
 
 type luConf struct {
 	Ctxs  []int `json:"tls_contexts"` // 1 = certificate A, 2 = certificate B
